@@ -6,7 +6,7 @@ import c27_impl
 
 ID = 'C27'
 LEVEL = 'proof'
-PROPS = ['Props/C27.v']
+PROPS = ['Props/C27.v', 'Findings/C27.v']
 GEN = []
 TRUSTED = [
     'hand-written model Model/C27Inherit.v of EntityMeta.__init__ (direct bases, _all_bases_, _subclasses_, _root_, diamond rule), Discriminator.code2cls, '
@@ -27,6 +27,7 @@ RULE = ('seeded random hierarchies: 1..7 classes, 1..2 trees, single / multiple 
         'int Discriminator column, a stream of invalid definitions (bases from different trees) and of duplicate discriminator values; correspondence = one vm_compute boolean per '
         'observable (valid, all_bases, subclasses, root, criteria, code2cls entry, isinstance condition); search = create objects of every class, then reload in fresh sessions by '
         'select over every class, get by pk through every class of the tree, relationship navigation, isinstance queries (positive / negated, foreign-tree classes); '
+        'lookup by pk through every class after the object entered the identity map as an unloaded seed of a base-typed reference (falsy discriminator values 0 / \'\' on non-leaf classes included); '
         'non-trivial = hierarchies with at least one subclass (distinct specs counted)')
 
 
@@ -58,6 +59,12 @@ def gen_spec(rng, invalid=False, dup=False, nmax=7):
     elif mode == 'str':
         for i, c in enumerate(classes):
             if rng.random() < 0.5: c['discr'] = 'X%d' % i
+    nonleaf = sorted(set(b for c in classes for b in c['bases']))
+    if nonleaf and rng.random() < 0.5:
+        # a falsy discriminator value on a class that has subclasses (0 / '' are values like any other)
+        j = rng.choice(nonleaf + [root[nonleaf[0]]])
+        if mode == 'int': classes[j]['discr'] = 0
+        elif mode == 'str': classes[j]['discr'] = ''
     if invalid:
         # last class inherits from two different trees
         r0 = [i for i in range(n - 1) if root[i] != root[0]]
@@ -211,6 +218,20 @@ def correspondence(ctx):
                 add('isinst_eqb (isinstance_sql %s %d %s) %s' % (name, e, cnats(cs), cond_literal(cond, tab)), 'isinstance', spec, [e, cs, cond])
             except Exception as ex:
                 disagreements.append({'what': 'isinstance query could not be translated / read: %s: %s' % (type(ex).__name__, ex), 'input': {'spec': spec, 'e': e, 'cs': cs}})
+        if dist['hierarchies'] <= ctx.scale(45, 400) and any(c['bases'] for c in spec['classes']):
+            try:
+                created, _h = c27_impl.populate(b, per_class=1)
+                for hpk, (c, r, pk) in sorted(b.seed_holders.items()):
+                    k = created[(r, pk)]
+                    pkname = b.classes[r]._pk_attrs_[0].name
+                    for e in range(ncls):
+                        if roots[e] != r: continue
+                        got, was_seed = c27_impl.seed_lookup(b, hpk, e, pkname, pk)
+                        lit = 'NotFound' if got is None else ('(Found %d)' % got if isinstance(got, int) else 'ClassChangeError')
+                        add('found_eqb (find_in_cache %s %s %d %d %s %d) %s' % (name, 'true' if info[c]['has_discr_attr'] else 'false', e, c, 'true' if was_seed else 'false', k, lit),
+                            'find_in_cache_seed', spec, [hpk, c, e, k, got, was_seed])
+            except Exception as ex:
+                disagreements.append({'what': 'seed lookups could not be run: %s: %s' % (type(ex).__name__, ex), 'input': spec})
         if len(samples) < 3 and ncls >= 4 and any(len(c['bases']) > 1 for c in spec['classes']):
             samples.append({'spec': spec, 'pony': info})
     bad = run_bools(ctx, exprs, defs)
@@ -268,7 +289,8 @@ def check_hierarchy(spec, rng, n_isinst=8):
     # R3 navigation from Holder, two access orders
     for order in ('direct', 'bulk'):
         with orm.db_session:
-            hs = b.Holder.select().order_by(b.Holder.id)[:] if order == 'bulk' else None
+            root_holders = sorted(holders)
+            hs = orm.select(h for h in b.Holder if h.id in root_holders)[:] if order == 'bulk' else None
             for hpk, (r, pk) in sorted(holders.items()):
                 try:
                     h = b.Holder[hpk]
@@ -292,6 +314,43 @@ def check_hierarchy(spec, rng, n_isinst=8):
             evals += 1
             if got != created[(r, pk)]:
                 fail('navigate', 'assign-first', 'assigning through Holder[%r].ref%d: class %r, created as K%d' % (hpk, r, got, created[(r, pk)])); break
+    # R5 the object is first met as an unloaded seed (a row referencing it through an attribute typed as one of its ancestors is loaded),
+    #    then looked up by primary key through every class of the tree
+    for hpk, (c, r, pk) in sorted(b.seed_holders.items()):
+        k = created[(r, pk)]
+        pkname = classes[r]._pk_attrs_[0].name
+        for e, E in enumerate(classes):
+            if roots[e] != r: continue
+            got, was_seed = c27_impl.seed_lookup(b, hpk, e, pkname, pk)
+            evals += 1
+            want = k if issubclass(classes[k], E) else None
+            if got != want:
+                sibling = (not issubclass(E, classes[c]) and not issubclass(classes[c], E) and issubclass(classes[k], E))
+                falsy = not classes[c]._discriminator_
+                detail = 'sibling-branch' if sibling and got is None else ('falsy-discriminator' if falsy else 'other')
+                f = Failure(('seed-of-sibling-branch-hides-object' if detail == 'sibling-branch' and not has_duplicates(spec) else key_for(spec, 'seed-lookup', detail)),
+                            'C27 seed-lookup: with a K%d-typed reference to the object loaded first (seed=%s), K%d.get(pk=%r) gives class %r; the object was created as K%d, expected %r (hierarchy %s)'
+                            % (c, was_seed, e, pk, got, k, want, json.dumps(spec)), {'spec': spec, 'route': 'seed-lookup'})
+                fails.append(f)
+    # R6 two rows referencing one object through attributes typed by unrelated (sibling) classes, loaded in one session
+    by_obj = {}
+    for hpk, (c, r, pk) in sorted(b.seed_holders.items()): by_obj.setdefault((r, pk), []).append((hpk, c))
+    for (r, pk), lst in sorted(by_obj.items()):
+        for i1 in range(len(lst)):
+            for i2 in range(len(lst)):
+                (h1, c1), (h2, c2) = lst[i1], lst[i2]
+                if i1 == i2 or issubclass(classes[c1], classes[c2]) or issubclass(classes[c2], classes[c1]): continue
+                with orm.db_session:
+                    try:
+                        b.Holder[h1]; b.Holder[h2]
+                        o = getattr(b.Holder[h2], 'ref%d' % c2); got = c27_impl.cname(o)
+                    except Exception as ex:
+                        got = 'EXC %s' % type(ex).__name__
+                evals += 1
+                if got != created[(r, pk)]:
+                    key = 'sibling-typed-references-unexpected-class-change' if got == 'EXC TransactionError' and not has_duplicates(spec) else key_for(spec, 'two-references', 'other')
+                    fails.append(Failure(key, 'C27 two-references: loading a row with a K%d-typed reference and then a row with a K%d-typed reference to the same object (created as K%d) gives %r (hierarchy %s)'
+                                         % (c1, c2, created[(r, pk)], got, json.dumps(spec)), {'spec': spec, 'route': 'two-references'}))
     # R4 isinstance inside queries
     ncls = len(classes)
     for _ in range(n_isinst):
@@ -323,6 +382,11 @@ def search(ctx, deep):
         {'mode': 'int', 'classes': [{'bases': [], 'discr': 1}, {'bases': [0], 'discr': 2}, {'bases': [1], 'discr': 3}, {'bases': [], 'discr': 4}, {'bases': [3], 'discr': 5}]},
         {'mode': 'str', 'classes': [{'bases': [], 'discr': None}, {'bases': [0], 'discr': 'K'}, {'bases': [0], 'discr': 'K'}]},          # the recorded finding
         {'mode': 'str', 'classes': [{'bases': [], 'discr': None}, {'bases': [0], 'discr': 'K2'}, {'bases': [0], 'discr': None}]},       # custom value = another class's name
+    ]
+    specs += [
+        {'mode': 'int', 'classes': [{'bases': [], 'discr': 0}, {'bases': [0], 'discr': 1}, {'bases': [1], 'discr': 2}]},                 # falsy value on the root
+        {'mode': 'int', 'classes': [{'bases': [], 'discr': 5}, {'bases': [0], 'discr': 0}, {'bases': [1], 'discr': 2}, {'bases': [0], 'discr': 3}]},   # ... on an inner class
+        {'mode': 'str', 'classes': [{'bases': [], 'discr': ''}, {'bases': [0], 'discr': None}, {'bases': [0], 'discr': 'X'}]},
     ]
     n = ctx.scale(40, 400) if not deep else ctx.scale(160, 1200)
     for _ in range(n):
